@@ -196,7 +196,9 @@ theorem runLoop_step (fuel idx : Nat) (s : St) (bs : Bytes) (fin : EndState) (sc
             (initialBody fr.kind rest).2 fin).1
           (handle s h fr (isLastRequest h.version h.headers) (script idx) (initialBody fr.kind rest).1
             (initialBody fr.kind rest).2 fin).2.1 fin script := by
-  simp only [runLoop, hh, hf, hver]
+  have hf' : framingFor h.version h.headers = .ok fr := by
+    rw [framingFor_of_not_high _ _ hver]; exact hf
+  simp only [runLoop, hh, hf', hver]
   cases hk : fr.kind with
   | buffered n =>
     have := hshort n hk
